@@ -465,6 +465,10 @@ def gen_wild_program(rng, max_len=14):
                 ops.append({"s": [rng.randrange(4), gen_ri(rng, pool, p_lit), gen_ri(rng, pool, p_lit)]})
             elif kind == "lab":
                 ops.append({"lab": rng.choice(all_labels)})
+            elif mn.startswith("rot_"):
+                # `RotationInstruction.from_operands` accepts Template immediates (pre-compiled
+                # subroutines, C06); an `Instr` of the model has no template operand: out of scope
+                ops.append({"i": 1})
             else:
                 ops.append({"t": "x"})
         if rng.random() < 0.05 and ops:
